@@ -132,6 +132,7 @@ pub struct Walk {
     /// what the independent decoder reads from the entries of the last `load` (C02)
     loaded: Option<BTreeMap<String, (Vec<ColDef>, Vec<Vec<V>>)>>,
     loaded_pt: Option<usize>,
+    pending_sig: Option<Snap>,
     loaded_summary: Option<BTreeMap<u32, decode::PVal>>,
     loaded_streams: BTreeMap<String, String>,
     is_foreign: bool,
@@ -143,7 +144,7 @@ impl Walk {
             out: vec![], checked: 0, nontrivial: HashSet::new(), db: RefDb::default(), db_known: false,
             last_snap: None, ok_mutation_since_snap: false, before_reopen: None, after_reopen: false,
             streams: BTreeMap::new(), streams_known: false, summary: BTreeMap::new(), summary_known: false,
-            session_ok: false, loaded: None, loaded_pt: None, loaded_summary: None, loaded_streams: BTreeMap::new(), is_foreign: false,
+            session_ok: false, loaded: None, loaded_pt: None, pending_sig: None, loaded_summary: None, loaded_streams: BTreeMap::new(), is_foreign: false,
         }
     }
     fn fail(&mut self, tags: &[&'static str], i: usize, q: &str, r: &str, why: String) {
@@ -162,6 +163,13 @@ impl Walk {
         if r == "panic" {
             self.fail(&["C01", "C03", "C04", "C09", "C11", "C12", "C20", "C10", "C06"], i, q, r, "the call panicked".into());
             return;
+        }
+        if r.contains("READAPI:") {
+            self.fail(&["C03", "C12", "C01", "C02", "C05"], i, q, r, "the read side of the API is inconsistent with itself (size hints, row columns, value by column name, has_column)".into());
+            return;
+        }
+        if !["remove_sig", "snapshot", "has_sig", "streams", "has_stream", "stream_read", "select", "@ffi_check"].contains(&t[0]) {
+            self.pending_sig = None;
         }
         match t[0] {
             "new" => {
@@ -405,7 +413,18 @@ impl Walk {
             }
             "remove_sig" => {
                 if r == "ok" {
+                    // removing the signature removes only the signature: the next snapshot is the
+                    // last one with the signature gone
+                    if !self.ok_mutation_since_snap && self.pending_sig.is_none() {
+                        if let Some((_, last)) = &self.last_snap {
+                            let mut exp = last.clone();
+                            exp.sig = false;
+                            self.pending_sig = Some(exp);
+                        }
+                    }
                     self.ok_mutation_since_snap = true;
+                } else {
+                    self.fail(&["C11"], i, q, r, "removing the digital signature failed".into());
                 }
             }
             "sum_set" | "sum_clear" | "set_db_cp" => {
@@ -430,6 +449,13 @@ impl Walk {
             }
             "snapshot" => self.on_snapshot(i, q, r),
             "@summary_raw" => self.on_summary_raw(i, q, r),
+            "@ffi_check" => {
+                if r.starts_with("abort") {
+                    self.fail(&["C02", "C09"], i, q, r, "the C interface (get_information / get_table) aborted the process on this file".into());
+                } else if r.starts_with("mismatch") {
+                    self.fail(&["C02"], i, q, r, "the C interface reports something else than the Rust API for this file".into());
+                }
+            }
             "@rows_limit" => {
                 // reply: results per batch, accepted=N count=C reopen-count=R delete:.. refill:.. count=F
                 let batches: Vec<usize> = t[1..].iter().map(|x| x.parse().unwrap()).collect();
@@ -535,6 +561,13 @@ impl Walk {
                 return;
             }
         };
+        if let Some(exp) = self.pending_sig.take() {
+            self.nontrivial.insert(format!("sig{i}"));
+            if exp != snap {
+                let why = describe_diff(&exp, &snap);
+                self.fail(&["C11"], i, q, r, format!("after removing the digital signature: {why}"));
+            }
+        }
         // C01: after a reopen everything observable is what it was before closing
         if self.after_reopen {
             self.after_reopen = false;
